@@ -35,7 +35,7 @@ REQUIRED = ["detected_utf-8", "detected_cp1252", "detected_cp932", "detected_cp9
             "explicit_encoding", "native", "memory", "backup_and_output", "valid_under_several", "edit_changes_chart_in_place",
             "same_path_opened_twice_different_lists", "multibyte_char_straddles_1024", "output_and_backup_equal_input", "no_song_level_property",
             "file_ends_with_non_ascii_character", "input_path_with_several_dots", "several_dots_and_content_of_the_other_format",
-            "backup_path_is_a_proper_prefix_of_the_input_path"]
+            "backup_path_is_a_proper_prefix_of_the_input_path", "backup_name_differs_from_input_or_output_only_in_letter_case"]
 
 DEFAULT = ["utf-8", "cp1252", "cp932", "cp949"]
 SAMPLES = {
@@ -167,7 +167,7 @@ def cases(ctx):
         yield {
             "ext": ext, "content": content, "tried": tried, "fs": rng.choice(["native", "memory"]),
             "output": rng.choice([None, None, "out." + ext, "sub/out." + ext]),
-            "backup": rng.choice([None, None, "in." + ext + ".bak", "=input", "=output", "backup.old", "=prefix", "song." + ext]),
+            "backup": rng.choice([None, None, "in." + ext + ".bak", "=input", "=output", "backup.old", "=prefix", "song." + ext, "=case", "=case"]),
             "in_name": in_name, "content_ext": content_ext,
             "seed": rng.getrandbits(32), "strict": rng.random() < 0.85,
         }
@@ -349,6 +349,12 @@ def check(ctx, case):
             bak_path = inp
         elif bak_name == "=output":
             bak_path = out_path if out_path else inp
+        elif bak_name == "=case":
+            # another file on both filesystems: the input (or output) name in another letter case
+            base = out_path if (out_path and rng.random() < 0.5) else inp
+            head, sep, tail = base.rpartition("/")
+            bak_path = head + sep + tail.swapcase()
+            ctx.feat("backup_name_differs_from_input_or_output_only_in_letter_case")
         elif bak_name == "=prefix":
             # a different file whose path is a proper prefix (so a substring) of the input path: 'dir/in' for 'dir/in.sm'
             bak_path = inp[: -rng.choice([1, len(ext), len(ext) + 1])]
